@@ -422,14 +422,15 @@ def _center_input(rng, est, bychrom, skiplow, genome, shape=None):
                k=k, bychrom=bychrom, skiplow=skiplow)
 
 
-def center_inputs(ctx: Ctx, rounds, heavy_rounds):
-    """Every estimator x by_chrom x skip_low x PAR genome, `rounds` tables each (`heavy_rounds` for the biweight)."""
+def center_inputs(ctx: Ctx, rounds):
+    """Every estimator x by_chrom x skip_low x PAR genome, rounds[estimator] tables each (the biweight is costly for
+    TLC to recompute; the mode is only judged by re-application, so it gets more tables)."""
     out = []
     for est in ESTIMATORS:
         for bychrom in (True, False):
             for skiplow in (False, True):
                 for genome in ("none", "grch37", "grch38"):
-                    for _ in range(heavy_rounds if est == "biweight" else rounds):
+                    for _ in range(rounds[est]):
                         out.append(_center_input(ctx.rng, est, bychrom, skiplow, genome))
     return out
 
@@ -674,7 +675,9 @@ def run(ctx: Ctx):
         ctx.notes[f"scope{j}"] = {"scope": sc["name"], "tlc_states": r.distinct, "replayed": len(recs)}
     ctx.exhaustive = "; ".join(sc["name"] for sc in scopes) + " -- every dumped state replayed into the real code"
     # ---- direction 2 (a): centring
-    rnd = ctx.execute(execute, center_inputs(ctx, 14 if thorough else 3, 5 if thorough else 1))
+    rounds = ({"median": 14, "mean": 14, "default": 8, "mode": 30, "biweight": 5} if thorough
+              else {"median": 4, "mean": 4, "default": 2, "mode": 8, "biweight": 1})
+    rnd = ctx.execute(execute, center_inputs(ctx, rounds))
     grid = ctx.execute(execute, grid_inputs(ctx, 4000 if thorough else 400))
     # ---- direction 2 (b): the sex ensemble
     nscen = int(os.environ.get("VERIF_C15_SCENARIOS", "0") or 0) or (4000 if thorough else 300)
